@@ -992,8 +992,9 @@ func buildPayloadData(e *expr.HTTPEndpointExpr, sd *ServiceData) *PayloadData {
 	)
 	{
 		var (
+			clientBody     = clientRequestBody(e)
 			serverBodyData = buildRequestBodyType(e.Body, payload, e, true, sd)
-			clientBodyData = buildRequestBodyType(e.Body, payload, e, false, sd)
+			clientBodyData = buildRequestBodyType(clientBody, payload, e, false, sd)
 			paramsData     = extractPathParams(e.PathParams(), payload, sd.Scope)
 			queryData      = extractQueryParams(e.QueryParams(), payload, sd.Scope)
 			headersData    = extractHeaders(e.Headers, payload, svcctx, sd.Scope)
@@ -1953,6 +1954,23 @@ func errorBodyAttribute(v *expr.HTTPErrorExpr) string {
 		return codegen.Goify(o[0], true)
 	}
 	return ""
+}
+
+// clientRequestBody returns the attribute describing the request body built by
+// the client. A body defined inline with Body(func() { ... }) is given a name so
+// that the client builds it from the payload like any other body: encoding the
+// payload struct itself would send every payload attribute (including the ones
+// mapped to headers or params) under its Go field name.
+func clientRequestBody(e *expr.HTTPEndpointExpr) *expr.AttributeExpr {
+	if _, ok := e.Body.Type.(*expr.Object); !ok || !expr.IsObject(e.MethodExpr.Payload.Type) {
+		return e.Body
+	}
+	body := expr.DupAtt(e.Body)
+	return &expr.AttributeExpr{
+		Type:       &expr.UserTypeExpr{AttributeExpr: body, TypeName: codegen.Goify(e.Name(), true) + "RequestBody"},
+		Validation: body.Validation,
+		Meta:       body.Meta,
+	}
 }
 
 // buildRequestBodyType builds the TypeData for a request body. The data makes
